@@ -1,7 +1,6 @@
 import HH.Neon
 import HH.Proofs.PortableSpec
 import HH.Proofs.X86Lemmas
-import Std.Tactic.BVDecide
 import Mathlib.Tactic.IntervalCases
 /-!
 # The NEON model refines the portable model (step lemmas, valid for ALL register states)
@@ -110,16 +109,63 @@ theorem new_refines (k : V4) : toPortable (new k).r = (P.new k).st := by
     V4.zipWith, V4.map]
   refine ⟨⟨?_, ?_, ?_, ?_⟩, ⟨?_, ?_, ?_, ?_⟩⟩ <;> exact BitVec.xor_comm _ _
 
+theorem lo64_shr (a : BitVec 128) (k : Nat) : lo64 (vshrq_n_u64 a k) = lo64 a >>> k := by simp only [vshrq_n_u64, lo64_mk]
+theorem hi64_shr (a : BitVec 128) (k : Nat) : hi64 (vshrq_n_u64 a k) = hi64 a >>> k := by simp only [vshrq_n_u64, hi64_mk]
+theorem dup0 : vdupq_n_u8 0 = (0 : BitVec 128) := by decide
+theorem lo64_slli8 (a : BitVec 128) : lo64 (slli8 a) = 0 := by
+  simp only [slli8, vextq_u8, dup0, Nat.reduceMul, Nat.reduceSub, BitVec.zero_ushiftRight, BitVec.zero_or]
+  unfold lo64; bv_lsb
+theorem hi64_slli8 (a : BitVec 128) : hi64 (slli8 a) = lo64 a := by
+  simp only [slli8, vextq_u8, dup0, Nat.reduceMul, Nat.reduceSub, BitVec.zero_ushiftRight, BitVec.zero_or]
+  unfold lo64 hi64; bv_lsb
+theorem lo64_bic (a b : BitVec 128) : lo64 (vbicq_u64 a b) = lo64 a &&& ~~~(lo64 b) := by unfold lo64 vbicq_u64; bv_lsb
+theorem hi64_bic (a b : BitVec 128) : hi64 (vbicq_u64 a b) = hi64 a &&& ~~~(hi64 b) := by unfold hi64 vbicq_u64; bv_lsb
+theorem signBit_lo : lo64 (vsetq_lane_u32 0x80000000#32 (vdupq_n_u32 0) 3) = 0 := by decide
+theorem signBit_hi : hi64 (vsetq_lane_u32 0x80000000#32 (vdupq_n_u32 0) 3) = 0x8000000000000000#64 := by decide
+
+theorem vld1q_mk32 (mem : List (BitVec 8)) (off : Nat) :
+    vld1q_u8 mem off = X86.mk32 (le32 ((mem.drop off).drop 12)) (le32 ((mem.drop off).drop 8)) (le32 ((mem.drop off).drop 4)) (le32 (mem.drop off)) := by
+  have : vld1q_u8 mem off = X86.ofBytes16 (mem.drop off) := by
+    simp only [vld1q_u8, X86.ofBytes16, mk_eq, List.drop_drop, Nat.add_comm]
+  rw [this, X86.ofBytes16_mk32]
+theorem v2new_mk32 (h l : BitVec 64) :
+    v2new h l = X86.mk32 ((h >>> 32).setWidth 32) (h.setWidth 32) ((l >>> 32).setWidth 32) (l.setWidth 32) := by
+  simp only [v2new, vld1q_u64, mk_eq, X86.mk_as_mk32]
+theorem mask_lo : v2new 0 0xFFFFFFFF#64 = X86.mk32 0 0 0 0xFFFFFFFF#32 := by decide
+theorem slli8_mk32 (d c b a : BitVec 32) : slli8 (X86.mk32 d c b a) = X86.mk32 b a 0 0 := by
+  apply X86.ext128
+  · have := lo64_slli8 (X86.mk32 d c b a)
+    simp only [lo64_eq] at this
+    rw [this, X86.lo64_mk32]; exact X86.join32_zero.symm
+  · have := hi64_slli8 (X86.mk32 d c b a)
+    simp only [lo64_eq, hi64_eq] at this
+    rw [this, X86.hi64_mk32, X86.lo64_mk32]
+theorem zero_mk32 : v2new 0 0 = X86.mk32 0 0 0 0 := by decide
+theorem dup_mk32 (x : BitVec 32) : vdupq_n_u32 x = X86.mk32 x x x x := rfl
+theorem and_mk32 (d c b a d' c' b' a' : BitVec 32) :
+    vandq_u64 (X86.mk32 d c b a) (X86.mk32 d' c' b' a') = X86.mk32 (d &&& d') (c &&& c') (b &&& b') (a &&& a') := X86.and_mk32 ..
+theorem or_mk32 (d c b a d' c' b' a' : BitVec 32) :
+    vorrq_u64 (X86.mk32 d c b a) (X86.mk32 d' c' b' a') = X86.mk32 (d ||| d') (c ||| c') (b ||| b') (a ||| a') := X86.or_mk32 ..
+theorem setlane3 (d c b a x : BitVec 32) : vsetq_lane_u32 x (X86.mk32 d c b a) 3 = X86.mk32 x c b a := by
+  have h := X86.lane32_mk32 d c b a
+  simp only [vsetq_lane_u32, lane32_eq, mk32_eq, h.1, h.2.1, h.2.2.1, ↓reduceIte, OfNat.ofNat_ne_zero, OfNat.ofNat_ne_one, Nat.reduceEqDiff]
+theorem le64_lo (l : List (BitVec 8)) : (le64 l).setWidth 32 = le32 l := by rw [X86.le64_join, X86.join32_lo]
+theorem le64_hi (l : List (BitVec 8)) : ((le64 l) >>> 32).setWidth 32 = le32 (l.drop 4) := by rw [X86.le64_join, X86.join32_hi]
+theorem z32a : ((0 : BitVec 64) >>> 32).setWidth 32 = (0 : BitVec 32) := by decide
+theorem z32b : (0 : BitVec 64).setWidth 32 = (0 : BitVec 32) := by decide
+
 set_option maxRecDepth 100000 in
-set_option maxHeartbeats 8000000 in
+set_option maxHeartbeats 16000000 in
 theorem remainder_refines_fn (n : Nat) (h : n < 32) (f : Fin 32 → BitVec 8) :
     lanesOfRegs (remainder (List.ofFn f) n).1 (remainder (List.ofFn f) n).2
       = P.dataToLanes (P.remainder ((List.ofFn f).take n)) := by
   interval_cases n <;>
-  simp [remainder, loadMultipleOfFour, P.remainder, P.dataToLanes, lanesOfRegs, unorderedLoad3, zeros, List.ofFn_succ,
-    List.replicate, List.set, List.getD, List.zipWith, vld1q_u8, vld1q_u64, v2new, slli8, vextq_u8, vdupq_n_u8, le64, le32,
-    vsetq_lane_u32, vdupq_n_u32, vorrq_u64, vandq_u64, lane32, mk32, mk, lo64, hi64] <;>
-  bv_decide
+  (simp [remainder, loadMultipleOfFour, P.remainder, P.dataToLanes, lanesOfRegs, unorderedLoad3, zeros, List.ofFn_succ,
+    List.replicate, List.set, List.zipWith]
+   try simp only [vld1q_mk32, mask_lo, slli8_mk32, zero_mk32, dup_mk32, v2new_mk32, le64_lo, le64_hi, z32a, z32b, and_mk32, or_mk32, setlane3,
+     lo64_eq, hi64_eq, X86.lo64_mk32, X86.hi64_mk32, X86.le64_join, List.drop_succ_cons, List.drop_zero, X86.load3_1, X86.load3_2, X86.load3_3,
+     X86.join32_lo, X86.join32_hi]
+   try simp [X86.le32_cons4, X86.le32_zero4, X86.and_ones32, X86.join32_zero])
 
 theorem list_eq_ofFn (buf : List (BitVec 8)) (h : buf.length = 32) :
     buf = List.ofFn (fun i : Fin 32 => buf[i.val]'(by omega)) := by
@@ -180,20 +226,6 @@ theorem finalizeCommon_refines (n : Nat) (x : State) (hx : x.buffer.Inv) :
   by_cases h0 : x.buffer.idx = 0
   · simp [h0]
   · simp [h0, updateRemainder_refines x hb hi]
-
-theorem lo64_shr (a : BitVec 128) (k : Nat) : lo64 (vshrq_n_u64 a k) = lo64 a >>> k := by simp only [vshrq_n_u64, lo64_mk]
-theorem hi64_shr (a : BitVec 128) (k : Nat) : hi64 (vshrq_n_u64 a k) = hi64 a >>> k := by simp only [vshrq_n_u64, hi64_mk]
-theorem dup0 : vdupq_n_u8 0 = (0 : BitVec 128) := by decide
-theorem lo64_slli8 (a : BitVec 128) : lo64 (slli8 a) = 0 := by
-  simp only [slli8, vextq_u8, dup0, Nat.reduceMul, Nat.reduceSub, BitVec.zero_ushiftRight, BitVec.zero_or]
-  unfold lo64; bv_lsb
-theorem hi64_slli8 (a : BitVec 128) : hi64 (slli8 a) = lo64 a := by
-  simp only [slli8, vextq_u8, dup0, Nat.reduceMul, Nat.reduceSub, BitVec.zero_ushiftRight, BitVec.zero_or]
-  unfold lo64 hi64; bv_lsb
-theorem lo64_bic (a b : BitVec 128) : lo64 (vbicq_u64 a b) = lo64 a &&& ~~~(lo64 b) := by unfold lo64 vbicq_u64; bv_lsb
-theorem hi64_bic (a b : BitVec 128) : hi64 (vbicq_u64 a b) = hi64 a &&& ~~~(hi64 b) := by unfold hi64 vbicq_u64; bv_lsb
-theorem signBit_lo : lo64 (vsetq_lane_u32 0x80000000#32 (vdupq_n_u32 0) 3) = 0 := by decide
-theorem signBit_hi : hi64 (vsetq_lane_u32 0x80000000#32 (vdupq_n_u32 0) 3) = 0x8000000000000000#64 := by decide
 
 theorem modLaneN (xh xl ih il : BitVec 64) :
     il ^^^ (xl <<< 2) ^^^ 0 ^^^ ((xl <<< 1) &&& ~~~(0 : BitVec 64)) ^^^ 0 = (P.moduleReduction xh xl ih il).1 ∧
